@@ -131,13 +131,14 @@ theorem runFrom_frame (L : Ladder R Lb) (fail : Option Nat) (A : List R) (K : Li
       rw [exec_frame st.ok s A K n b (fun a ha => hf.1 a (ok_subset hst a ha)) (fun a ha => hf.2 a (ok_subset hst a ha))]
       exact ih (fun st' h => hsub st' (List.mem_cons_of_mem _ h)) _ _
 
-/-- the frame property of a ladder run -/
+/-- the frame property of a ladder run: entered with its own pre-existing objects plus an ambient
+    state that shares no name with it, the ladder behaves as from its bare entry state and leaves
+    the ambient objects and links untouched -/
 theorem runLadder_frame (L : Ladder R Lb) (fail : Option Nat) (A : List R) (K : List (R × R)) (n b : Nat)
     (hf : Fresh L A K) :
-    runLadder L fail ⟨A, K, n, b⟩ = (runLadder L fail {}).frame A K n b := by
-  have := runFrom_frame L fail A K n b hf L.steps (fun _ h => h) {} 0
-  rw [St.frame_empty] at this
-  exact this
+    runLadder L fail ⟨L.pre ++ A, L.preLinks ++ K, n, b⟩ = (runLadder L fail (entry L)).frame A K n b := by
+  have := runFrom_frame L fail A K n b hf L.steps (fun _ h => h) (entry L) 0
+  simpa [St.frame, entry, runLadder] using this
 
 /-! ## `fail` values that are no failure points -/
 
@@ -196,9 +197,9 @@ theorem audit_all (L : Ladder R Lb) (h : audit L = true) (fail : Option Nat) : a
 
 /-- what the audit says about the run from the empty state -/
 theorem auditOne_spec {L : Ladder R Lb} {fail : Option Nat} (h : auditOne L fail = true) :
-    let s := runLadder L fail {}
+    let s := runLadder L fail (entry L)
     s.bad = 0 ∧ s.responses ≤ 1 ∧
-    (failsAt L fail = true → s.held = [] ∧ s.links = []) ∧
+    (failsAt L fail = true → s.held = L.pre ∧ s.links = L.preLinks) ∧
     (failsAt L fail = false → s.held = L.intended ∧ s.links = L.intendedLinks ∧
       ∀ p ∈ L.intendedLinks, p.2 ∈ L.intended) := by
   unfold auditOne at h
